@@ -105,14 +105,12 @@ inductive Ub where
   | negIndexStore
   /-- `floattoStr`: terminator written past the digits, bytes in between never initialised -/
   | floatStr
-  /-- bounds that exist only as `assert` (`listenerAt`, `ObjectAt`) -/
-  | assertBound
   deriving DecidableEq, Repr, Inhabited
 
 def Ub.name : Ub → String
   | .divMin => "int-min-division" | .shiftCount => "shift-count" | .floatCast => "float-cast"
   | .vecAlias => "vector-static-alias" | .wrongUnion => "wrong-union-member"
-  | .negIndexStore => "negative-index-store" | .floatStr => "float-to-string" | .assertBound => "assert-only-bound"
+  | .negIndexStore => "negative-index-store" | .floatStr => "float-to-string"
 
 /-- which design-time repairs the source under check shows (regenerated: `Gen.OpAccept.fix_*`) -/
 structure Fixes where
@@ -124,6 +122,14 @@ structure Fixes where
   floatCast : Bool
   floatStr : Bool
   deriving DecidableEq, Repr
+
+/-- the repair that removes each undefined behaviour -/
+def Ub.fixedBy (fx : Fixes) : Ub → Bool
+  | .divMin => fx.divMin | .shiftCount => fx.shiftCount | .floatCast => fx.floatCast
+  | .vecAlias => fx.vecDivAlias | .wrongUnion => fx.safeContainerBound
+  | .negIndexStore => fx.negIndexStore | .floatStr => fx.floatStr
+
+def Ub.all : List Ub := [.divMin, .shiftCount, .floatCast, .vecAlias, .wrongUnion, .negIndexStore, .floatStr]
 
 def Fixes.all : Fixes := ⟨true, true, true, true, true, true, true⟩
 def Fixes.none : Fixes := ⟨false, false, false, false, false, false, false⟩
